@@ -353,8 +353,14 @@ func (e *Engine) mapLen(st *State, m VMap) Term {
 		st.assume(Ge(t, IntLit(0)))
 		return t
 	}
-	// len(m) == 0  <=>  all entries absent
-	lt := App(SInt, "m.len."+sortTag(obj.ValSort), obj.Arr)
+	// len(m) == 0  <=>  all entries absent (array extensionality keeps this quantifier-free)
+	eff := obj.Arr
+	if obj.NilT.S != "" && !obj.NilT.IsFalse() {
+		eff = Ite(obj.NilT, constArr(obj.KeySort, obj.ValSort, obj.Absent), obj.Arr)
+	}
+	lt := App(SInt, "m.len."+sortTag(obj.ValSort), eff)
+	st.fact(Ge(lt, IntLit(0)))
+	st.fact(Eq(Eq(lt, IntLit(0)), Eq(eff, constArr(obj.KeySort, obj.ValSort, obj.Absent))))
 	return lt
 }
 
